@@ -23,6 +23,7 @@ Definition obytes_eq (a b : option bytes) : bool :=
 Definition values_of (r : request) : amap :=
   if c_api cfg then q_form r else q_form r ++ q_query r.
 Definition pidf : bytes := if c_username cfg then f_username else f_email.
+Definition pid_rule_c : rule := mkRule pidf true (if c_username cfg then MUsername else MEmail) 0 0 0 0 0 0 0 false.
 
 Definition has_2fa (u : user) : bool :=
   (c_totp cfg && negb (bempty (u_totp u))) || (c_sms cfg && negb (bempty (u_sms u))).
@@ -539,7 +540,7 @@ Definition pred_c19 (g : ghost) (w : world) (a : action) (O : oracle) (w' : worl
           let pw := aget f_password vals in
           let pre := pre_users w in
           let post := io_users i in
-          let policy_ok := valid [pid_rule cfg; password_rule] pw_pairs vals in
+          let policy_ok := valid [pid_rule_c; password_rule] pw_pairs vals in
           let should_create := policy_ok && (length pw <=? 72)%nat && negb (existsb (fun u => beqb (u_pid u) pid) pre) in
           let before := uid_in (sess_of w (q_browser r)) in
           let after := uid_in (io_sess i) in
